@@ -63,3 +63,65 @@ func checkRankEnd(p *Program, r *Report, rule string, fns []*ssa.Function) {
 		r.Unk("rank queries on Slim.Inners", "", "no rank query on Slim.Inners found in the functions of this rule")
 	}
 }
+
+// checkRankLastBit: a rank query answers "how many ones before position i" and hands back bit i
+// separately. A query at a position of the form T-1 is the idiom for "how many ones in [0,T)" and needs
+// the bit added (rank(T-1) + bit(T-1)); dropping the bit miscounts exactly when position T-1 is set — the
+// last node of a zone has a step, the last label of a bitmap is set — which small key sets rarely produce.
+func checkRankLastBit(p *Program, r *Report, rule string) {
+	r.Rule(rule, "E6", "a rank query at a position T-1 uses the bit it returns", 1)
+	n := 0
+	for _, f := range p.FuncsOf(triePath) {
+		if f.Synthetic != "" || len(f.Blocks) == 0 || !trieScope(f) {
+			continue
+		}
+		e := newEval(p)
+		ord := 0
+		for _, c := range callsIn(f) {
+			call, ok := c.(*ssa.Call)
+			if !ok {
+				continue
+			}
+			g := calleeOf(call)
+			if g == nil || g.Pkg == nil || g.Pkg.Pkg.Path() != "github.com/openacid/low/bitmap" || !strings.HasPrefix(g.Name(), "Rank") || len(call.Call.Args) != 3 {
+				continue
+			}
+			t := e.eval(call.Call.Args[2])
+			// position = something - 1 (as a normalised sum with the constant -1)
+			isLast := false
+			if t.op == "add" {
+				for _, a := range t.args {
+					if isK(a) && a.c == -1 {
+						isLast = true
+					}
+				}
+			}
+			if t.op == "conv" && len(t.args) == 1 && t.args[0].op == "add" {
+				for _, a := range t.args[0].args {
+					if isK(a) && a.c == -1 {
+						isLast = true
+					}
+				}
+			}
+			if !isLast {
+				continue
+			}
+			n++
+			ord++
+			bitUsed := false
+			if refs := call.Referrers(); refs != nil {
+				for _, ref := range *refs {
+					if ex, ok := ref.(*ssa.Extract); ok && ex.Index == 1 && ex.Referrers() != nil && len(*ex.Referrers()) > 0 {
+						bitUsed = true
+					}
+				}
+			}
+			r.Func(shortFn(f))
+			r.Check(bitUsed, fmt.Sprintf("rank at a last position #%d in %s", ord, shortFn(f)), p.Pos(call.Pos()), "position "+abbreviate(t.String())+": the returned bit is used",
+				"the rank query at "+abbreviate(t.String())+" discards the bit of that position: it counts the ones strictly before the last position, so a set last bit (the last node of the zone, the last label) is not counted")
+		}
+	}
+	if n == 0 {
+		r.Unk("rank queries at a last position", "", "no rank query at a position of the form T-1 found")
+	}
+}
